@@ -87,9 +87,13 @@ def peer(events, results=(0,)):
                 return [fd.incoming_pdu(fd.ac_spec([(it['id'], results[k % len(results)], svc.IMPLICIT)
                                                     for k, it in enumerate(pcs)], 64))]
             if t == 5:
+                if 'ignore-release' in events:
+                    return []
                 return [fd.incoming_pdu({'t': 6, 'r1': 0, 'r2': 0})]
             return []
         ev = events[state['n']] if state['n'] < len(events) else 'ok'
+        if ev == 'ignore-release':
+            ev = 'ok'
         state['n'] += 1
         cf = rec['fields'].get(0x0100)
         pc = rec['pc_ids'][0]
@@ -189,12 +193,44 @@ def requester_peer_event(position, kind, event):
     else:
         if not isinstance(raised, exceptions.AssociationReleasedError):
             raise Violation('%s:peer-release:error-type' % PROP, 'peer release request at %s surfaced as %r' % (position, raised), case)
+        # the peer waits for an answer to its A-RELEASE-RQ: the block is left through that error, which aborts the
+        # association (an A-RELEASE-RP would do as well) - saying nothing leaves the peer hanging
+        answers = [r['spec'].get('t') for r in fac.instances[0].sent_pdus() if r['spec'].get('t') in (5, 6, 7)]
+        if answers not in ([7], [6]):
+            raise Violation('%s:peer-release:unanswered' % PROP, 'peer requested release at %s; after surfacing it the requester '
+                            'handed %r to the provider (A-ABORT or A-RELEASE-RP expected)' % (position, answers), case)
     if not fac.instances[0].killed:
         raise Violation('%s:peer-event:not-ended' % PROP, 'provider not stopped', case)
 
 
 class _Done(Exception):
     pass
+
+
+def requester_release_ignored(where):
+    """Normal exit, but the peer never confirms the release: the release attempt ends in the library's time-out
+    error, i.e. the block is left through an error after all - and that aborts the association."""
+    from pynetdicom2 import exceptions
+    case = {'kind': 'release-ignored', 'where': where}
+    ae = make_client()
+    fac = fd.Factory([lambda d: setattr(d, 'responder', peer(['ok', 'ignore-release']))])
+    raised = None
+    try:
+        with fd.installed(fac):
+            with ae.request_association(dict(REMOTE)) as assoc:
+                if where == 'between':
+                    exchange(assoc, 'echo', 0)
+    except exceptions.NetDICOMError as exc:
+        raised = exc
+    except Exception as exc:
+        raise Violation('%s:release-ignored:wrong-error:%s' % (PROP, type(exc).__name__), 'unconfirmed release surfaced as %r' % (exc,), case)
+    dul = fac.instances[0]
+    kinds = [r['spec'].get('t') for r in dul.sent_pdus()][1:]
+    if kinds != [5, 7]:
+        raise Violation('%s:release-ignored:pdus' % PROP, 'peer ignores A-RELEASE-RQ: requester handed %r to the provider '
+                        '(A-RELEASE-RQ, then A-ABORT expected); caller saw %r' % (kinds, raised), case)
+    if not dul.killed:
+        raise Violation('%s:release-ignored:not-ended' % PROP, 'provider not stopped', case)
 
 
 def requester_exit(mode, where, results=(0,)):
@@ -526,6 +562,9 @@ def run(ctx):
                 ctx.case(('exit', mode, results), True, labels=['exit=' + mode, 'contexts-refused'],
                          sample={'exit': mode, 'context results': results})
                 ctx.check(requester_exit, mode, 'between' if results[0] == 0 else 'first', results)
+    for where in ('first', 'between'):
+        ctx.case(('release-ignored', where), True, labels=['release-never-confirmed'], sample={'where': where})
+        ctx.check(requester_release_ignored, where)
     for ev in events:
         for after in (0, 1, 3):
             ctx.case(('acc-ev', ev, after), after > 0 or ev[1:] not in ((), (0, 0)), labels=['acceptor-peer-' + ev[0]])
@@ -560,6 +599,8 @@ def replay(case):
         requester_rejected(tuple(case['triple']))
     elif k == 'requester-peer-event':
         requester_peer_event(case['position'], case['exchange'], tuple(case['event']))
+    elif k == 'release-ignored':
+        requester_release_ignored(case['where'])
     elif k == 'requester-exit':
         requester_exit(case['mode'], case['where'], tuple(case.get('results', (0,))))
     elif k == 'loopback':
